@@ -1015,11 +1015,13 @@ def o_C12(I, ref_len):
 def o_C13(I):
     out = []
     cause = None
+    due = None
     udisc_seg = None
     for n, e in enumerate(I.events):
         k = e['kind']
         if k == 'call':
             cause = None
+            due = None
         if e.get('ctx') == 'run' or k in ('w', 'drophandle', 'done'):
             if k == 'in':
                 p = e['pkt']
@@ -1028,6 +1030,8 @@ def o_C13(I):
                         cause = ('err', e['seg'])
                     elif p['type'] == 14:
                         cause = ('ret', e['seg'], view_disconnect(p))
+                        # read by a serving run() that the script does not hold: run() returns in this very step
+                        due = e['seg'] if not e.get('ctxheld') and 'rdp' not in I.cfg else None
             if k == 'eof' and cause is None:
                 cause = ('ret', e['seg'], 'err SocketClosed')
         if k == 'w' and e['pkt'] and e['pkt']['type'] == 14 and cause is None:
@@ -1056,8 +1060,11 @@ def o_C13(I):
                     out.append((I.name, e['seg'], f"run() returned `{e['text']}` although nothing ended the connection"))
             elif cause[0] == 'ret' and e['text'] != cause[2] and not limited:
                 out.append((I.name, e['seg'], f"run() returned `{e['text']}`, the cause at segment {cause[1]} calls for `{cause[2]}`"))
+            elif cause[0] == 'ret' and due is not None and e['seg'] != due:
+                out.append((I.name, due, f"the server's DISCONNECT was read at segment {due} but run() returned only at segment {e['seg']}"))
             elif cause[0] == 'err' and not e['text'].startswith('err '):
                 out.append((I.name, e['seg'], f"run() returned `{e['text']}` on undecodable input"))
+            due = None
             cause = 'done'
     # a cause without a return
     if cause not in (None, 'done') and not any(e['kind'] in ('dropctx', 'dropfut') for e in I.events) and 'ctx' not in I.held:
